@@ -19,6 +19,8 @@ type Case struct {
 	Side  string `json:"side,omitempty"`
 	Src   string `json:"src,omitempty"` // literal script for the script-level streams
 	Scope string `json:"scope,omitempty"` // composite routes: top | func | method
+	Fresh bool   `json:"fresh,omitempty"` // run in a fresh interpreter (not the long-lived one of the child)
+	NoEffect bool `json:"noeffect,omitempty"` // composite routes: the effect check does not apply
 }
 
 type runner struct {
@@ -27,6 +29,7 @@ type runner struct {
 	w     *worker
 	nCase int
 	crashes int // child processes lost to a fatal error / hang
+	fresh bool // the next script runs in a fresh interpreter
 	sigs  map[string]string // every violation signature seen → coordinates of its first case (debug dump)
 }
 
@@ -325,10 +328,17 @@ func tokAll(ops []Op) []string {
 }
 
 func routeSuffix(o Op) string {
+	sfx := ""
 	if o.Route != "" {
-		return "/" + o.Route
+		sfx = "/" + o.Route
 	}
-	return ""
+	if o.Form != "" {
+		sfx += "/" + o.Form
+	}
+	if (o.R != nil && o.R.K == "call") || (o.Arg != nil && o.Arg.K == "call") {
+		sfx += "<call"
+	}
+	return sfx
 }
 
 func lenBucket(n int) string {
